@@ -20,6 +20,14 @@ var selftestPatterns = []string{
 	`^[a-f0-9]{4}$`,
 	`a.c`,
 	`(?i)ab+c$`,
+	`(?i)^[a-z0-9_.-]+$`,
+	`(?i)^[ks]+$`,
+	`^[^a-z]+$`,
+	`\x{FFFD}`,
+	`^\pL+$`,
+	`é.`,
+	`^[\x{80}-\x{7FF}]+$`,
+	`[\x{10000}-\x{10FFFF}]$`,
 }
 
 func selftestRegex() int {
@@ -43,7 +51,7 @@ func selftestRegex() int {
 			b[i] = tc.Var(fmt.Sprintf("b%d", i), 8)
 		}
 		f := ex.regexMatch(cr, Str{sym: &SymStr{n: n, b: b}})
-		for it := 0; it < 3000; it++ {
+		for it := 0; it < 4000; it++ {
 			ln := rng.Intn(capN + 1)
 			bs := make([]byte, ln)
 			m := map[string]uint64{"n": uint64(ln)}
@@ -53,15 +61,12 @@ func selftestRegex() int {
 					bs[i] = byte(rng.Intn(256))
 				}
 			}
-			// skip valid multi-byte UTF-8 sequences (outside the model: treated byte-wise)
-			skip := false
-			for i := 0; i+1 < len(bs); i++ {
-				if bs[i] >= 0xc2 && bs[i+1] >= 0x80 && bs[i+1] < 0xc0 {
-					skip = true
+			// whole runes of every width (and their prefixes, when cut by the length) at random places
+			if rng.Intn(2) == 0 && ln > 0 {
+				wide := []string{"\u212a", "\u017f", "\u00e9", "\u07ff", "\u0800", "\ud7ff", "\ue000", "\ufffd", "\U00010000", "\U0010ffff", "\xed\xa0\x80", "\xf4\x90\x80\x80", "\xc0\x80", "\xe0\x9f\xbf", "\xf0\x8f\xbf\xbf", "\u0130", "\u0131", "\uff21"}
+				for k := rng.Intn(3); k >= 0; k-- {
+					copy(bs[rng.Intn(ln):], wide[rng.Intn(len(wide))])
 				}
-			}
-			if skip {
-				continue
 			}
 			for i := 0; i < capN; i++ {
 				if i < ln {
